@@ -646,7 +646,17 @@ def _nograd_templates(name, rng):
     x = onp.array([0.37, -1.21, 2.43, 0.81])
     y = onp.array([1.13, -0.52, 2.9, -0.33])
     m = onp.array([[0.37, -1.21], [2.43, 0.81]])
-    return [("u", (x,), {}), ("m", (m,), {}), ("b", (x, y), {}), ("k", (x, 2), {}), ("ks", (onp.sort(x), 0.5), {}), ("s", (0.37,), {}), ("bs", (x, 0.9), {})]
+    base = [("u", (x,), {}), ("m", (m,), {}), ("b", (x, y), {}), ("k", (x, 2), {}), ("ks", (onp.sort(x), 0.5), {}), ("s", (0.37,), {}), ("bs", (x, 0.9), {})]
+    # options given by keyword must reach the NumPy function under tracing as well
+    kws = [{"axis": 0}, {"axis": -1}, {"decimals": 1}, {"atol": 0.5}, {"rtol": 0.6}, {"side": "right"}, {"dtype": onp.float32}, {"keepdims": True}, {"axis": 1, "keepdims": True}, {"equal_nan": True}, {"kind": "stable"}, {"kth": 1}]
+    m3 = onp.array([[0.37, -1.21, 2.43], [0.81, 0.12, -0.55]])
+    ex = []
+    for kw in kws:
+        ex.append(("u+" + ",".join(sorted(kw)), (x * 3.7,), kw))
+        ex.append(("m+" + ",".join(sorted(kw)), (m3 * 3.7,), kw))
+        ex.append(("b+" + ",".join(sorted(kw)), (x, x + 0.3), kw))
+        ex.append(("ks+" + ",".join(sorted(kw)), (onp.sort(x), x[1] * 1.01 + 0.013), kw))
+    return base + ex
 
 
 def c14_nograd(res, rng):
@@ -712,7 +722,7 @@ def c14_nograd(res, rng):
             varies = False
             for h in (1e-3, 1e-6):
                 for s in (+1, -1):
-                    v = onp.array([0.7, -0.4, 0.9, 0.5])[: onp.size(args[0])].reshape(onp.shape(args[0]))
+                    v = onp.resize(onp.array([0.7, -0.4, 0.9, 0.5, -0.6, 0.8]), onp.shape(args[0]))
                     pert = args[0] + s * h * v
                     try:
                         with warnings.catch_warnings():
